@@ -203,6 +203,8 @@ func loadReified(ls *ipld.LinkSystem, c cid.Cid, reifier string) (datamodel.Node
 	return ls.KnownReifiers[reifier](ipld.LinkContext{}, n, ls)
 }
 
+var lc0 = ipld.LinkContext{}
+
 func cidOf(l datamodel.Link) cid.Cid { return l.(cidlink.Link).Cid }
 
 func sumRaw(b []byte) cid.Cid {
